@@ -9,6 +9,7 @@ The history is interpreted against the real core and, in lock-step, against
 pvf.ref.rendezvous.Monitor, written from the property statement.
 """
 import contextlib
+import functools
 import gc
 import io
 import itertools
@@ -48,6 +49,7 @@ ASSUMPTIONS = [
   "quit() before goUp takes effect when its worker next runs after goUp has begun; the worker is run between history operations",
   "a deferral may be released again after it has been released (immediately, later, inside GoingUp delivery, after Up): being refused with RuntimeError and being silently ignored are both accepted, only the lifecycle afterwards is judged",
   "goUp is called at most once; GoingUp handlers do not raise",
+  "a waiter's callback is any callable: function, lambda, bound method, functools.partial of either, instance with __call__, builtin bound method (list.append; never fails, its firing is read off the list after the API call), partial of a failing builtin (its own firing is not observable; only containment and the other waiters are judged)",
   "registered components are arbitrary objects, including ones whose truth value is False (empty table-like objects)",
   "quit() may be called again from inside a GoingDown or Down handler (same thread); it must not start a second shutdown",
   "the order of UpEvent relative to GoingDownEvent/DownEvent (quit while a deferral is outstanding) is not judged",
@@ -64,12 +66,28 @@ REG_HOW = ["name", "new", "single", "corename_new", "corename_single", "falsy", 
 CWR_FORMS = ["list", "tuple", "set", "str"]
 ARG_MODES = ["id", "none", "kw"]
 ATTR_MODES = ["attrs", "short", "none"]
+# what kind of callable a waiter's callback is
+CB_KINDS = ["func", "lambda", "bound", "partial", "partial_bound", "inst", "builtin", "partial_builtin_fail"]
+# kinds without function-like __name__ / __module__ (call_when_ready derives a default name from those)
+CB_NAMELESS = ("partial", "partial_bound", "inst", "builtin", "partial_builtin_fail")
 
 _P = None
 
 
 class CbBoom(Exception):
   """The exception a scripted callback raises."""
+
+
+class _Party(object):
+  """A waiter as an object: its bound method `fire` or the instance itself is the callback."""
+  def __init__(self, rt, w):
+    self._rt, self._w = rt, w
+
+  def fire(self, *args, **kw):
+    return self._rt.on_callback(self._w, args, kw)
+
+  def __call__(self, *args, **kw):
+    return self._rt.on_callback(self._w, args, kw)
 
 
 class _FakeThread(object):
@@ -173,6 +191,8 @@ class RT(object):
     self.waiters = case.get("waiters", [])
     self.sinkspecs = case.get("sinks", [])
     self.gupspecs = case.get("gups", [])
+    self.blog = {}            # waiter -> list that a builtin-kind callback (list.append) appends to
+    self.blog_seen = {}
     self.callbacks = [self._mk_callback(w) for w in range(len(self.waiters))]
     self.sinks = [self._mk_sink(k) for k in range(len(self.sinkspecs))]
     self.guphandlers = [self._mk_gup(g) for g in range(len(self.gupspecs))]
@@ -299,11 +319,39 @@ class RT(object):
     self.mon.in_goingup_delivery = False
 
   # ---------------------------------------------------------------- scripted parties
+  def kind(self, w):
+    k = self.waiters[w].get("kind", "func")
+    if k not in CB_KINDS:
+      raise HarnessError("unknown callback kind %r" % (k,))
+    return k
+
   def _mk_callback(self, w):
+    kind = self.kind(w)
+
     def cb(*args, **kw):
       return self.on_callback(w, args, kw)
     cb.__name__ = "waiter%d" % w
-    return cb
+    if kind == "func":
+      return cb
+    if kind == "lambda":
+      return lambda *args, **kw: self.on_callback(w, args, kw)
+    if kind == "bound":
+      return _Party(self, w).fire
+    if kind == "partial":
+      return functools.partial(cb)
+    if kind == "partial_bound":
+      return functools.partial(_Party(self, w).fire)
+    if kind == "inst":
+      return _Party(self, w)
+    if kind == "builtin":
+      # a builtin bound method; it never fails and runs no script.  It is always declared with the
+      # declaration number as its only argument, and its firing is read off the list afterwards.
+      self.blog[w] = []
+      self.blog_seen[w] = 0
+      return self.blog[w].append
+    # a partial of a builtin that always fails; whether it ran cannot be observed, only that the
+    # failure is contained and that everybody else still fires
+    return functools.partial(int, "not a number")
 
   def on_callback(self, w, args, kw):
     spec = self.waiters[w]
@@ -488,6 +536,13 @@ class RT(object):
   def _end_call(self, call, failed=False):
     # sinks without _all_dependencies_met: the attributes are the only sign that the wiring ran
     have = set(self.core.components)
+    for w, lst in self.blog.items():
+      while self.blog_seen[w] < len(lst):
+        no = lst[self.blog_seen[w]]
+        self.blog_seen[w] += 1
+        self.mon.fired(("cb", w, no), have)
+        self.flag("callback-fired")
+        self.flag("builtin-callback-fired")
     for d in self.mon.decls:
       if d.kind == "sink" and d.fired == 0 and d.completing is not None and not d.broken:
         k = d.group[1]
@@ -585,6 +640,10 @@ class RT(object):
       form = "list"
     comps = {"list": list(deps), "tuple": tuple(deps), "set": set(deps), "str": deps[0] if deps else None}[form]
     arg = op.get("arg", "id")
+    kind = self.kind(w)
+    if kind == "builtin":
+      arg = "id"
+    explicit = op.get("name", "default") == "explicit"
     self.decl_no += 1
     no = self.decl_no
     if arg == "id":
@@ -599,9 +658,16 @@ class RT(object):
     already = set(deps) <= set(self.mon.registry)
     d = self.mon.declare(call, group, deps, "cb")
     cause = "empty-sequence" if (not deps and form in ("list", "tuple")) else "-"
+    if cause == "-" and not explicit and kind in CB_NAMELESS:
+      cause = "default-name"    # the callable has no function-like __name__ / __module__ to derive a name from
     d.tag = cause
+    if kind == "partial_builtin_fail":
+      d.broken = True           # nothing about its own firing can be observed
     try:
-      self.core.call_when_ready(self.callbacks[w], comps, args=a, kw=kw)
+      if explicit:
+        self.core.call_when_ready(self.callbacks[w], comps, name="waiter-%d" % w, args=a, kw=kw)
+      else:
+        self.core.call_when_ready(self.callbacks[w], comps, args=a, kw=kw)
     except HarnessError:
       raise
     except Exception as e:
@@ -609,8 +675,13 @@ class RT(object):
         self.exc_violation(e, "call_when_ready-raised", deps=("empty" if not deps else "nonempty"), cause=cause)
       d.broken = True
       self._end_call(call, failed=True)
+      if cause == "default-name" and not any(en[0] is self.callbacks[w] and en[3] == a and en[4] == kw for en in self.core._waiters):
+        self.flag("cwr-rejected-before-registration")   # nothing was stored: the history can go on
+        return
       self.stop = True          # the half-made entry stays in core._waiters; nothing after this is meaningful
       return
+    self.flag("cwr-kind-" + kind)
+    self.flag("cwr-name-" + ("explicit" if explicit else "default"))
     self.flag("cwr-" + form)
     self.flag("cwr-deps-already-registered" if already else "cwr-declared-before-registration")
     if not deps:
@@ -871,10 +942,11 @@ def run_case(case):
 def _pool_case(seq):
   A, B = 0, 1
   waiters = [
-    {"ops": [], "raise": False},
-    {"ops": [{"op": "reg", "n": B, "how": "name"}, {"op": "cwr", "w": 1, "deps": [A], "form": "list", "arg": "id"}], "raise": False},
-    {"ops": [], "raise": True},
-    {"ops": [], "raise": False},
+    {"ops": [], "raise": False, "kind": "func"},
+    {"ops": [{"op": "reg", "n": B, "how": "name"}, {"op": "cwr", "w": 1, "deps": [A], "form": "list", "arg": "id", "name": "explicit"}],
+     "raise": False, "kind": "bound"},
+    {"ops": [], "raise": True, "kind": "partial"},
+    {"ops": [], "raise": False, "kind": "inst"},
   ]
   sinks = [{"h": [[A, 0], [B, 0]], "met": "ok"}]
   gups = [{"take": 1, "rel": [False], "ops": []}, {"take": 1, "rel": [True], "ops": []}]
@@ -883,7 +955,7 @@ def _pool_case(seq):
     {"op": "reg", "n": B, "how": "new"},
     {"op": "cwr", "w": 0, "deps": [A], "form": "list", "arg": "id"},
     {"op": "cwr", "w": 1, "deps": [A], "form": "str", "arg": "kw"},
-    {"op": "cwr", "w": 2, "deps": [B], "form": "tuple", "arg": "id"},
+    {"op": "cwr", "w": 2, "deps": [B], "form": "tuple", "arg": "id", "name": "explicit"},
     {"op": "cwr", "w": 0, "deps": [A, B], "form": "set", "arg": "none"},
     {"op": "ltd", "k": 0, "extra": [], "attrs": "attrs"},
     {"op": "gup", "g": 0, "p": 0},
@@ -892,7 +964,7 @@ def _pool_case(seq):
     {"op": "quit"},
     {"op": "rel", "k": 0},
     {"op": "reg", "n": A, "how": "falsy"},
-    {"op": "cwr", "w": 3, "deps": [], "form": "set", "arg": "id"},
+    {"op": "cwr", "w": 3, "deps": [], "form": "set", "arg": "id", "name": "explicit"},
     {"op": "rel2", "k": 0},
     {"op": "gdl", "ev": 0, "p": 0},
   ]
@@ -918,10 +990,11 @@ def _s_ops(kind):
   reg = st.fixed_dictionaries({"op": st.just("reg"), "n": st.sampled_from([0, 0, 0, 1, 1, 1, 2, 3, 4]), "how": st.sampled_from(REG_HOW[:2] * 2 + REG_HOW + ["falsy"])})
   cwr = st.fixed_dictionaries({"op": st.just("cwr"), "w": st.integers(0, 4), "deps": deps,
                                "form": st.sampled_from(["list", "list", "set", "set", "str", "tuple"]),
-                               "arg": st.sampled_from(["id", "kw", "none", "none"])})
+                               "arg": st.sampled_from(["id", "kw", "none", "none"]),
+                               "name": st.sampled_from(["explicit"] * 5 + ["default"])})
   cwr0 = st.fixed_dictionaries({"op": st.just("cwr"), "w": st.integers(0, 4), "deps": st.just([]),
                                 "form": st.sampled_from(["set", "list", "tuple"]),
-                                "arg": st.sampled_from(["id", "none"])})
+                                "arg": st.sampled_from(["id", "none"]), "name": st.just("explicit")})
   ltd = st.fixed_dictionaries({"op": st.just("ltd"), "k": st.integers(0, 2), "extra": st.lists(name, max_size=2),
                                "attrs": st.sampled_from(ATTR_MODES), "extra_form": st.sampled_from(["list", "none", "str"])})
   rel = st.fixed_dictionaries({"op": st.just("rel"), "k": st.integers(0, 3)})
@@ -941,7 +1014,8 @@ def _s_ops(kind):
 
 def _strategy(tier):
   n = 6 if tier == "quick" else 10
-  waiter = st.fixed_dictionaries({"ops": st.lists(_s_ops("nested"), max_size=3), "raise": st.sampled_from([False, False, False, True])})
+  waiter = st.fixed_dictionaries({"ops": st.lists(_s_ops("nested"), max_size=3), "raise": st.sampled_from([False, False, True]),
+                                  "kind": st.sampled_from(CB_KINDS)})
   sink = st.fixed_dictionaries({
     "h": st.lists(st.tuples(st.sampled_from([0, 0, 1, 1, 2, 3, 4]), st.integers(0, 1)).map(list), min_size=0, max_size=3),
     "met": st.sampled_from(["ok", "ok", "ok", "raise", "none"]),
